@@ -2,6 +2,7 @@ import BM.Props.C14
 import BM.Props.Pins
 import BM.Proofs.Nesting
 import BM.Proofs.Bytes
+import BM.Proofs.ProvC
 /-
   C09: well-nested input yields well-nested output.  Proved (event level, every policy):
   * an element dropped for lack of attributes and its own end tag cancel: the start tag
@@ -142,5 +143,25 @@ example :
     let p : Policy := { initialized := true, elsAndAttrs := [(b!"a", [(b!"href", [none])]), (b!"b", []), (b!"img", [(b!"src", [none])])],
                         setOfElementsAllowedWithoutAttrs := [b!"b"] }
     p.sanitizeCore b!"<a><b><a href=x>1</a></b><img>2</a>3" = b!"<b><a href=\"x\">1</a></b>23" := by decide
+
+/-- **C09 (byte level), comments allowed or not**: the same for every policy without AllowUnsafe and
+    without a raw-text element on its allowlist — a comment between tags is not an element -/
+theorem C09_bytesC (p : Policy) (hp : PlainC p.ensureInit) (input : Bytes)
+    (hwn : wellNested (tokenize input) = true) : wellNested (tokenize (p.sanitizeCore input)) = true := by
+  obtain ⟨ws, toks, hrun, ⟨hbytes, hprov⟩, hout⟩ := C09_events p hp.noUnsafe input hwn
+  have hseg : ∀ k ∈ toks, SegOKC k := by
+    intro k hk
+    obtain ⟨t, ht, hpr⟩ := hprov k hk
+    exact prov_segOKC hp (tokenize_wf input t ht) hpr
+  have hb : p.sanitizeCore input = renderAll toks := by
+    unfold Policy.sanitizeCore Policy.sanitizeTokens
+    rw [hrun]
+    simp only
+    unfold TokBytes at hbytes
+    rw [hbytes, flatten_map_render]
+  rw [hb, tokenize_renderAllC toks hseg]
+  unfold wellNested
+  rw [wn_coalesce, wn_map_reread]
+  exact hout
 
 end BM.Props
